@@ -688,6 +688,7 @@ func (e *Engine) findDigitPrefilter(haystack []byte) *Match {
 	state := e.getSearchState()
 	defer e.putSearchState(state)
 
+	failed := 0 // candidates that did not verify
 	for pos < len(haystack) {
 		// Use SIMD to find next digit position
 		digitPos := e.digitPrefilter.Find(haystack, pos)
@@ -717,6 +718,13 @@ func (e *Engine) findDigitPrefilter(haystack []byte) *Match {
 
 		// No match at this digit position, continue searching
 		pos = digitPos + 1
+
+		// Bounded number of failed candidates, then the linear-time engine
+		// (see digitCandidateBudget).
+		failed++
+		if failed >= digitCandidateBudget {
+			return e.findNFAAt(haystack, pos)
+		}
 	}
 
 	return nil
@@ -736,6 +744,7 @@ func (e *Engine) findDigitPrefilterAt(haystack []byte, at int) *Match {
 	state := e.getSearchState()
 	defer e.putSearchState(state)
 
+	failed := 0 // candidates that did not verify
 	for pos < len(haystack) {
 		digitPos := e.digitPrefilter.Find(haystack, pos)
 		if digitPos < 0 {
@@ -760,6 +769,11 @@ func (e *Engine) findDigitPrefilterAt(haystack []byte, at int) *Match {
 		}
 
 		pos = digitPos + 1
+
+		failed++
+		if failed >= digitCandidateBudget {
+			return e.findNFAAt(haystack, pos)
+		}
 	}
 
 	return nil
